@@ -28,7 +28,7 @@ RULE = ("definitions with >=3 symbols per role and >=2 sensors x >=2 readings, b
         "non-trivial = (definition, variant) whose hash seed or permutation differs from variant 0; distinct = "
         "(definition index, hash seed, permutation seed, containers)")
 ASSUMPTIONS = [
-    "two variants agree iff all 10 digests agree",
+    "two variants agree iff all digests agree (12 cross-process digests, plus the in-process regeneration digests)",
 ]
 
 N_DEF = {"quick": 6, "thorough": 48}
